@@ -367,6 +367,11 @@ func (e Expect) Match(got Value) error {
 			if err != nil {
 				return fmt.Errorf("expected a number %v, got %s", e.F, got.String())
 			}
+			if expNotation(got.S) {
+				// INCRBYFLOAT / HINCRBYFLOAT: "an integer number followed (if needed) by
+				// a dot, and a variable number of digits", never an exponent
+				return fmt.Errorf("expected the number %v in fixed notation, got %s", e.F, got.String())
+			}
 		}
 		if !floatNear(f, e.F) {
 			return fmt.Errorf("expected number %v, got %v", e.F, f)
@@ -461,6 +466,11 @@ func parseFloat(a string) (float64, bool) {
 }
 
 func upper(s string) string { return strings.ToUpper(s) }
+
+// expNotation: a decimal number written with an exponent.
+func expNotation(s string) bool {
+	return strings.ContainsAny(s, "eE") && !strings.ContainsAny(s, "nN")
+}
 
 func sortedKeys[V any](m map[string]V) []string {
 	out := make([]string, 0, len(m))
